@@ -121,9 +121,23 @@ def scen_decision(ch, params, out):
                       lambda: f"model with keys {list(m.type)} registered although the object is a mapping ({ctx()})", "class_generated_for_mapping")
 
 
-PATTERNS = [r"\d+", r"[a-z]", r"a|b", r"x.*", r"^\d+", r"id_\w+$", r"\d+|\w"]
-KEYSETS = [["1", "22"], ["1", "2x"], ["a"], ["ab"], ["b", "a"], ["ba", "a"], ["x", "xyz"], ["ax"], ["id_a", "id_b"], ["id_a", "zid_b"],
-           ["1", "id_a"], []]
+ATOM_PATTERNS = [r"\d+", r"id_\w+", r"[a-z]"]
+
+
+def pattern_grammar():
+    """atoms, alternations of two atoms, each with an optional user-written leading ^ and / or trailing $"""
+    bodies = list(ATOM_PATTERNS) + [f"{a}|{b}" for a in ATOM_PATTERNS for b in ATOM_PATTERNS if a != b] + [r"x.*", r"\d+|\w"]
+    out = []
+    for b in bodies:
+        for pre in ("", "^"):
+            for post in ("", "$"):
+                out.append(pre + b + post)
+    return out
+
+
+PATTERNS = pattern_grammar()
+KEYSETS = [["1", "22"], ["1", "2x"], ["x1", "2"], ["a"], ["ab"], ["b", "a"], ["x", "xyz"], ["ax"], ["id_a", "id_b"], ["id_a", "zid_b"], ["id_1_created", "id_2_x"],
+           ["1", "id_a"], ["7_id", "id_7"], []]
 
 
 def scen_cli(ch, params, out):
@@ -131,7 +145,7 @@ def scen_cli(ch, params, out):
     import ast as _ast
     import json
     from vflib import clienv, pipeline
-    pats = ch.choose("patterns", [(p,) for p in PATTERNS] + [(PATTERNS[0], PATTERNS[5]), (PATTERNS[1], PATTERNS[0])], shard=True)
+    pats = ch.choose("patterns", [(p,) for p in PATTERNS] + [(r"\d+", r"id_\w+$"), (r"[a-z]", r"\d+")], shard=True)
     keys = ch.choose("keys", KEYSETS)
     use_dkf = ch.flag("dkf_lists_the_field")
     obj = {k: i for i, k in enumerate(keys)}
@@ -145,8 +159,11 @@ def scen_cli(ch, params, out):
     ctx = lambda: f"patterns={pats} keys={keys} dkf={use_dkf}"
     if not out.check(res.status == 0, "cli_fails", lambda: f"{res.stderr[-300:]} ({ctx()})", "cli_fails"):
         return
-    expect_dict = (not keys) or use_dkf or any(all(re.fullmatch(p, k) for k in keys) for p in pats)
-    other_is_dict = any(all(re.fullmatch(p, k) for k in ("plain", "name")) for p in pats)
+    def whole(p, k):
+        # "anchored at both ends": the pattern as the user wrote it must match the entire key
+        return re.fullmatch(f"(?:{p})", k) is not None
+    expect_dict = (not keys) or use_dkf or any(all(whole(p, k) for k in keys) for p in pats)
+    other_is_dict = any(all(whole(p, k) for k in ("plain", "name")) for p in pats)
     try:
         ld = pipeline.load_module(res.stdout)
     except Exception as e:
@@ -173,9 +190,9 @@ def scen_cli(ch, params, out):
 def parts(tier):
     if tier == "quick":
         return [CH("decision", "vflib.props.c13:scen_decision", {}, shards=5, timeout=170, path_timeout=30, mode="CH-P"),
-                CH("cli", "vflib.props.c13:scen_cli", {}, shards=9, timeout=170, path_timeout=30)]
+                CH("cli", "vflib.props.c13:scen_cli", {}, shards=16, timeout=170, path_timeout=30)]
     return [CH("decision", "vflib.props.c13:scen_decision", {}, shards=5, timeout=900, path_timeout=30, mode="CH-P"),
-            CH("cli", "vflib.props.c13:scen_cli", {}, shards=9, timeout=900, path_timeout=30)]
+            CH("cli", "vflib.props.c13:scen_cli", {}, shards=16, timeout=900, path_timeout=30)]
 
 
 META = {
@@ -184,7 +201,7 @@ META = {
     "functions_encoded": ["MetadataGenerator._convert", "MetadataGenerator._detect_type (dict branch)", "MetadataGenerator.__init__", "Cli.set_args (pattern anchoring)",
                           "ModelRegistry.process_meta_data"],
     "symbolic_on_path": ["position of the object", "number of keys 0..3", "number of regexes 0..2", "answer bit of each consulted regex.match(key)", "field-name-listed bit"],
-    "bounds": {"quick": "objects with <=3 keys, <=2 regexes (arbitrary answer functions), 5 positions; CLI: 10 pattern sets x 13 key sets x dkf bit"},
+    "bounds": {"quick": "objects with <=3 keys, <=2 regexes (arbitrary answer functions), 5 positions; CLI: pattern grammar (3 atoms, their pairwise alternations, 2 extra) x optional ^ x optional $ = 46 patterns + 2 pairs, x 14 key sets x dkf bit"},
     "outside_claim": ["anchoring for arbitrary regex text (a pattern is a program, not a first-order value): claimed for the pattern pool only"],
     "assumptions": ["a stub pattern object stands for any compiled regex: only .match(key) is used by the code (checked by the run itself: any other attribute access raises)"],
 }
